@@ -91,7 +91,9 @@ func (t *JitterTicker) schedule() {
 	if t.timer != nil {
 		t.timer.Stop()
 	}
-	next := t.d + time.Duration(rand.Int63n(int64(t.jitter*2))) - (t.jitter)
+	// +1 so that jitter == 0 is allowed (rand.Int63n panics for 0): the offset is uniform in
+	// [-jitter, +jitter].
+	next := t.d + time.Duration(rand.Int63n(int64(t.jitter*2)+1)) - (t.jitter)
 
 	// To prevent a latent goroutine already spawned but not yet running the below function from
 	// delivering a tick after Stop/Reset.
